@@ -78,6 +78,8 @@ func main() {
 		modeC09()
 	case "c13":
 		modeC13(*rules, *thorough)
+	case "connlife":
+		modeConnLife(*rules)
 	case "c08":
 		modeC08(*thorough, "c08")
 	case "c19":
